@@ -179,7 +179,7 @@ Definition micro (s : state) (t : nat) : option (state * list Z) :=
           end
       | FPin10 => ret l (FPin11 (G s) :: k) [10; 0; 0; 1210; 2 * G s + 1; 0]
       | FPin11 r =>
-          let l' := {| ann := r; pinned := true; valid := false; incs := incs l; serial := serial l;
+          let l' := {| ann := r; pinned := true; valid := false; incs := false; serial := serial l;
                        gcnt := gcnt l; bag := bag l; must_collect := must_collect l; collecting := collecting l;
                        advance_count := advance_count l; prev_epoch := prev_epoch l; frames := frames l;
                        prog := prog l; registered := registered l |} in
@@ -197,7 +197,7 @@ Definition micro (s : state) (t : nat) : option (state * list Z) :=
             ret l' k [12; 0; 0]
           else ret l (FPin13 :: k) [12; 0; 0]
       | FPin13 =>
-          let l' := {| ann := ann l; pinned := false; valid := false; incs := incs l; serial := serial l;
+          let l' := {| ann := ann l; pinned := false; valid := false; incs := false; serial := serial l;
                        gcnt := gcnt l; bag := bag l; must_collect := must_collect l; collecting := collecting l;
                        advance_count := advance_count l; prev_epoch := prev_epoch l; frames := frames l;
                        prog := prog l; registered := registered l |} in
@@ -265,7 +265,9 @@ Definition micro (s : state) (t : nat) : option (state * list Z) :=
                     [2010; did d; 0])
           end
       (* ---- try_advance *)
-      | FAdv18 => ret l (FAdvScan (G s) (registry s) :: k) [18; 0; 0; 1218; 2 * G s; 0]
+      | FAdv18 =>
+          (* try_advance takes a &Guard: the caller is pinned and validated *)
+          if valid l then ret l (FAdvScan (G s) (registry s) :: k) [18; 0; 0; 1218; 2 * G s; 0] else None
       | FAdvScan ge rest =>
           match rest with
           | [] => ret l (FAdv20 ge :: k) []
@@ -285,8 +287,12 @@ Definition micro (s : state) (t : nat) : option (state * list Z) :=
                 [20; 2 * (ge + 1); 0])
       (* ---- repin_without_collect *)
       | FRepin16 =>
+          (* repin_without_collect is only reached while collecting: pinned, validated, and no longer
+             inside the user's critical section (the outermost guard is being dropped) *)
           let o := [16; 0; 0; 1216; 2 * G s + 1; 0] in
-          if edata l =? 2 * G s + 1 then ret l k o else ret l (FRepin17 (G s) :: k) o
+          if valid l && negb (incs l) then
+            if edata l =? 2 * G s + 1 then ret l k o else ret l (FRepin17 (G s) :: k) o
+          else None
       | FRepin17 g =>
           let l' := {| ann := g; pinned := true; valid := valid l; incs := incs l; serial := serial l;
                        gcnt := gcnt l; bag := bag l; must_collect := must_collect l; collecting := collecting l;
